@@ -131,9 +131,10 @@ func runVerify(w *World, opt verifyOpts) int {
 	var results []*FuncResult
 	var missing []string
 	var fnames []string
+	var undecidedExtra []string
 	for _, k := range sortedKeys(P.Contracts) {
 		fc := P.Contracts[k]
-		if fc.Lib || fc.Inline {
+		if fc.Lib || fc.Inline || fc.Behaviour {
 			continue
 		}
 		if !opt.all && !fc.hasProp(opt.prop) {
@@ -148,6 +149,28 @@ func runVerify(w *World, opt verifyOpts) int {
 	}
 	for _, k := range fnames {
 		results = append(results, w.verifyFunction(P.Funcs[k], P.Contracts[k]))
+		// function literals returned under a declared behaviour are verified against it
+		fc := P.Contracts[k]
+		for i, rn := range fc.Results {
+			bn := fc.Behaves[rn]
+			if bn == "" {
+				continue
+			}
+			bc := P.Contracts["behaviour:"+bn]
+			if bc == nil {
+				undecidedExtra = append(undecidedExtra, shortTypeName(k)+": behaviour "+bn+" not declared")
+				continue
+			}
+			_ = i
+			for _, af := range P.Funcs[k].AnonFuncs {
+				if len(af.Params) != len(bc.Params) {
+					continue
+				}
+				cp := *bc
+				cp.Props = fc.propSet()
+				results = append(results, w.verifyFunction(af, &cp))
+			}
+		}
 	}
 	// package initialisers that establish declared facts about constant globals
 	initPkgs := map[string]bool{}
@@ -192,7 +215,7 @@ func runVerify(w *World, opt verifyOpts) int {
 	var obls []*Obligation
 	violations := 0
 	var lines []string
-	var undecided []string
+	undecided := undecidedExtra
 	for _, r := range results {
 		if r.Unsupported != "" {
 			undecided = append(undecided, r.Name+": "+r.Unsupported)
